@@ -131,6 +131,18 @@ def mutations(h, sigma):
                     out.append((f"swapfield{sep}{j}", sep.join(sw)))
             out.append((f"extrasep{sep}", h + sep))
             out.append((f"dblsep{sep}", h.replace(sep, sep + sep, 1)))
+    # k=v surgery: the key or the value of every 'k=v' item emptied
+    for i, ch in enumerate(h):
+        if ch == "=":
+            a = i
+            while a > 0 and h[a - 1] not in "$,{}:|":
+                a -= 1
+            b = i + 1
+            while b < n and h[b] not in "$,{}:|":
+                b += 1
+            out.append((f"dropkey@{i}", h[:a] + h[i:]))
+            out.append((f"dropval@{i}", h[: i + 1] + h[b:]))
+            out.append((f"dropeq@{i}", h[:i] + h[i + 1 :]))
     # numeric surgery: every maximal digit run
     import re
 
@@ -350,7 +362,9 @@ def allowed_to_verify(name, seedhash, label, mutant):
     return False
 
 
-OK_EXC = (ValueError, TypeError)
+#: the documented refusals of a malformed hash STRING: ValueError (and subclasses).  TypeError is documented for
+#: arguments of the wrong type; every argument offered here is str or bytes, so a TypeError is an internal error
+OK_EXC = (ValueError,)
 
 
 def probe(name, H, cx, seedhash, label, mutant, form, mode, PW=PW):
